@@ -5,6 +5,7 @@ spec/InputStream.tla      HTMLUnicodeInputStream as a step machine driven by the
 spec/MC_InputStream.tla   every source <= MaxLen x EVERY read schedule x every client call sequence
 spec/Trace_InputStream.tla  validation of recorded call traces (scripted client and real tokenizer)
 spec/ByteBuffer.tla (+MC_/Trace_)  BufferedStream (replay buffer for non-seekable byte sources)
+spec/SourceKind.tla (+MC_)  the HTMLInputStream() factory: source kind x declared encoding -> class, encoding in force
 
 spec -> code: every exported behaviour is replayed on a real HTMLUnicodeInputStream fed by a scripted source.
 code -> spec: call traces of the real stream object (scripted client; and the real tokenizer inside full
@@ -46,6 +47,46 @@ def mc_cfg(alpha, maxpiece, maxlen, maxops, export, check, defects, invs=None):
 
 def defects_const(listed):
     return "CONSTANT KnownDefects = {%s}\n" % ",".join('"%s"' % d for d in listed)
+
+
+# code points that something in Python or in the code under test treats specially although the property does not:
+# U+FEFF (BOM as a character), the characters str.splitlines() / universal newlines take for line ends, NBSP
+LINE_LIKE = ["\ufeff", "\x85", "\u2028", "\u2029", "\x0b", "\x1c", "\x1d", "\x1e", "\xa0"]
+
+
+def special_chars(cap=14):
+    """LINE_LIKE plus every non-ASCII / control character that occurs in a short string literal of the stream,
+    tokenizer or parser source of the tree under test (a fuzzer dictionary: widens inputs, never an oracle)"""
+    from .. import literals
+    found = set()
+    for lit in literals.strings("html5lib/_inputstream.py", "html5lib/_tokenizer.py", "html5lib/html5parser.py"):
+        if len(lit) <= 3:
+            for ch in lit:
+                if (ord(ch) > 0x7E or ord(ch) < 0x20) and ch not in "\r\n\t\x0c\x00" and not 0xD800 <= ord(ch) <= 0xDFFF:
+                    found.add(ch)
+    out = list(LINE_LIKE)
+    for ch in sorted(found):
+        if ch not in out:
+            out.append(ch)
+    return out[:cap]
+
+
+def line_seg(text):
+    """one line per read: a boundary after every LF, CR LF and lone CR"""
+    seg, run = [], 0
+    for i, ch in enumerate(text):
+        run += 1
+        if ch == "\n" or (ch == "\r" and text[i + 1:i + 2] != "\n"):
+            seg.append(run)
+            run = 0
+    if run:
+        seg.append(run)
+    return seg
+
+
+def after_newline_sizes(text, k=3):
+    """chunk sizes that put the first chunk boundary right behind a newline"""
+    return [i + 1 for i, ch in enumerate(text[:-1]) if ch in "\r\n"][:k]
 
 
 # ------------------------------------------------------------------------------------------------
@@ -254,7 +295,8 @@ def crlf_mutate(rng, s):
     return "".join(out)
 
 
-def make_texts(ctx, n, maxlen):
+def make_texts(ctx, n, maxlen, uni=None):
+    uni = uni or ADV_UNI
     texts = []
     repo = [s for s in corpus.repo_strings() if len(s) <= maxlen]
     ctx.rng.shuffle(repo)
@@ -263,7 +305,7 @@ def make_texts(ctx, n, maxlen):
     while len(texts) < n:
         k = ctx.rng.random()
         if k < 0.6:
-            texts.append(adv_text(ctx.rng, ADV_UNI))
+            texts.append(adv_text(ctx.rng, uni))
         elif k < 0.8:
             texts.append(crlf_mutate(ctx.rng, corpus.soup(ctx.rng)))
         else:
@@ -280,6 +322,9 @@ def text_deliveries(rng, text, nshort):
         ds.append({"kind": "short", "seg": rand_seg(rng, len(text))})
     ds.append({"kind": "short", "seg": rand_seg(rng, len(text), True), "chunk": rng.choice([1, 2, 3, 4])})
     ds.append({"kind": "short", "seg": [1] * len(text)})
+    ds.append({"kind": "short", "seg": line_seg(text)})
+    for c in after_newline_sizes(text):
+        ds.append({"kind": rng.choice(["str", "stringio"]), "chunk": c})
     return ds
 
 
@@ -288,13 +333,13 @@ def byte_deliveries(rng, text, enc, n):
     nb = len(ins.encode(text, enc))
     ds = []
     for _ in range(n):
-        kind = rng.choice(["bytes", "bytesio", "nsbfull", "nsb", "nsb"])
+        kind = rng.choice(["bytes", "bytesio", "nsbfull", "nsb", "nsb", "http", "httpchunked", "addinfourl"])
         how = rng.choice(hows)
         if how == "bom" and text.startswith("\x00"):
             how = "override"            # FF FE 00 00 is taken for a UTF-32 BOM (C06's bom-utf32-shadows-utf16)
         d = {"kind": kind, "enc": enc, "how": how}
         if rng.random() < 0.75:
-            d["chunk"] = rng.choice([1, 1, 2, 3, 5, 7])
+            d["chunk"] = rng.choice([1, 1, 2, 3, 5, 7] + after_newline_sizes(text) * 2)
         if kind == "nsb":
             seg = rand_seg(rng, nb + 4, rng.random() < 0.6)
             if how == "bom":
@@ -399,6 +444,8 @@ def end_to_end(ctx, listed, groups, tag):
                               % (rec["v"], rec["l"]), dict(case, verdict=rec["v"], event=rec["l"]))
                 info.append(None)
                 continue
+            if d.get("enc") and r["enc"] != ins.enc_name(d["enc"]):
+                ctx.violation("the encoding declared as certain (%s) is not the one in force (%s)" % (d["enc"], r["enc"]), case)
             fired = set(rec["fired"])
             istar, prob = intended_errors(r["ev"], r["errors"], rec["ips"], rec["polls"])
             if prob:
@@ -467,18 +514,53 @@ def end_to_end(ctx, listed, groups, tag):
     return stats
 
 
-def build_groups(ctx, listed):
+def long_groups(ctx, specials, uni):
+    """documents as long as the size thresholds of the stream code (stock chunk size ...), nothing overridden:
+    a newline + special character + adversarial snippet placed so that the threshold falls just before, between
+    and just behind the newline and the character that follows it; reference = the same text in ONE chunk"""
+    from .. import literals
+    rng = ctx.rng
+    groups = []
+    thresholds = literals.ints("html5lib/_inputstream.py", lo=512, hi=20000)
+    for n in (thresholds[-1:] if ctx.quick else thresholds):
+        for d in ((0,) if ctx.quick else (-1, 0, 1, 2)):
+            nl = rng.choice(["\n", "\n", "\r\n", "\r"])
+            snippet = nl + rng.choice(specials) + adv_text(rng, uni, 2, 5) + "\n" + rng.choice(specials) + "<p>z"
+            pre = n + d - len(nl)
+            text = "<!DOCTYPE html><title>t</title><body>\n"
+            while len(text) + 64 <= pre - 8:
+                text += "x" * 63 + "\n"                  # plain text lines: few tokenizer calls per chunk
+            text += "<p>" + "y" * (pre - len(text) - 7) + "</p>"
+            assert len(text) == pre
+            text += snippet
+            ds = [{"kind": "str", "chunk": len(text) + 64}, {"kind": "str"}, {"kind": "stringio"},
+                  {"kind": "short", "seg": line_seg(text)}]
+            for enc in ("utf-8", "utf-16le"):
+                if ins.encodable(text, enc):
+                    ds.append({"kind": rng.choice(["bytes", "bytesio", "nsbfull", "http"]), "enc": enc,
+                               "how": rng.choice(["override", "transport"])})
+            groups.append((text, ds))
+    return groups
+
+
+def build_groups(ctx, listed, specials):
     rng = ctx.rng
     q = ctx.quick
     groups = []
     ref = {"kind": "str"}
+    nls = ["\n", "\r\n", "\r"]
+    uni = ADV_UNI + specials + [rng.choice(nls) + c for c in specials] + ["\n" + c for c in specials]
+    # (0) long documents around the size thresholds found in the stream code
+    groups += long_groups(ctx, specials, uni)
     # (1) text deliveries, random segmentations
-    for t in make_texts(ctx, 70 if q else 700, 90 if q else 300):
+    for t in make_texts(ctx, 70 if q else 700, 90 if q else 300, uni):
         groups.append((t, [ref] + text_deliveries(rng, t, 3 if q else 6)))
     # (2) EVERY segmentation of short adversarial texts (short-read text stream), and every chunk size
     shorts = ["a\r\nb", "\r\n<!d>", "&am\r\n<b", "😀\r\n\x01", "<!dx>\n<", "x\r\r\n&#x"]
+    for c in rng.sample(specials, 2 if q else len(specials)):
+        shorts.append("a" + rng.choice(nls) + c + "<b>" + rng.choice(nls) + c)
     for _ in range(4 if q else 40):
-        shorts.append(adv_text(rng, ADV_UNI, 2, 4)[: (9 if q else 12)])
+        shorts.append(adv_text(rng, uni, 2, 4)[: (9 if q else 12)])
     for t in shorts:
         t = t[: (9 if q else 12)]
         ds = [ref] + [{"kind": "short", "seg": seg} for seg in ins.compositions(len(t))]
@@ -489,6 +571,7 @@ def build_groups(ctx, listed):
     per = 10 if q else 24
     for enc in encs:
         extra = ENC_EXTRA.get(enc, []) + ["é", "ж", "ł", "中", "한", "ü", "ש", "ع", "ก", "α"]
+        extra += specials + [rng.choice(nls) + c for c in specials]
         extra = [x for x in extra if ins.encodable("a" + x, enc)]
         made = 0
         for _ in range(per * 6):
@@ -502,12 +585,49 @@ def build_groups(ctx, listed):
     return groups
 
 
+SK_CFG = ('INIT Init\nNEXT Next\nCHECK_DEADLOCK FALSE\nINVARIANT ThmKindIndependent\nINVARIANT ThmExport\n'
+          'CONSTANT Boms = {"utf-8","utf-16le","utf-16be"}\n'
+          'CONSTANT Labels = {"utf-8","utf-16le","windows-1252","shift_jis"}\nCONSTANT Export = TRUE\n')
+
+
+def factory_row(item):
+    row, frag = item
+    got = ins.open_row(row, frag)
+    exp = row["exp"]
+    if (got["out"], got["enc"], got["conf"]) != (exp["out"], exp["enc"], exp["conf"]):
+        return "factory gave %s, SourceKind.Open says %s" % ({k: got[k] for k in ("out", "enc", "conf")}, exp)
+    if not got["same_tree"]:
+        return "tree differs from the str delivery of the same characters"
+    return None
+
+
+def factory_table(ctx):
+    r = ctx.tlc("MC_SourceKind", SK_CFG, "sourcekind", expect_ok=False)
+    if r.violated or r.error:
+        ctx.violation("SourceKind: theorem %s fails" % (r.violated or r.error), {"tlc": r.stdout_path})
+        return
+    rows = sorted(r.records, key=lambda x: json.dumps(x, sort_keys=True))
+    items = [(row, frag) for row in rows for frag in (False, True)]
+    for (row, frag), bad in zip(items, core.parallel(factory_row, items, chunk=100)):
+        ctx.traces += 1
+        ctx.nontriv(("factory", row["k"], row["bom"] != "none", row["ov"] != "none", row["tr"] != "none", row["exp"]["out"]))
+        if bad:
+            ctx.violation("stream factory: " + bad, {"kind": "factory", "row": row, "fragment": frag})
+    ctx.notes["factory_rows_opened"] = len(items)
+
+
 def run(ctx):
     listed = listed_defects(ctx)
     q = ctx.quick
+    specials = special_chars()
+    sp_alpha = [10, 13, 97] + [ord(c) for c in specials[:1] + (specials[len(LINE_LIKE):] or specials[1:])[:1]]
     mc_int = [(ALPHA, 2, 4, 5), (ALPHA_WIDE, 3, 3, 4)] if q else [(ALPHA, 3, 5, 6), (ALPHA_WIDE, 2, 4, 5)]
     mc_exp = (ALPHA, 2, 3, 4) if q else (ALPHA, 2, 4, 4)
     ctx.constants = {"MC intended (Alpha, MaxPiece, MaxLen, MaxOps)": mc_int, "MC code-faithful export": mc_exp,
+                     "MC code-faithful export, special code points": (sp_alpha, 2, 3, 3),
+                     "special code points (LINE_LIKE + harvested from the source under test)": [hex(ord(c)) for c in specials],
+                     "factory table": "MC_SourceKind: 10 source kinds x BOM {none,utf-8,utf-16le,utf-16be} x override x "
+                                      "transport over 4 labels (all 768 declared combinations), parse and parseFragment",
                      "until sets": "{&,<,NUL}; space characters (opposite); ASCII letters (opposite)",
                      "KnownDefects(code-faithful)": listed,
                      "end-to-end": "etree fullTree; deliveries: str, StringIO, _defaultChunkSize 1/2/3/7 and all sizes "
@@ -551,9 +671,19 @@ def run(ctx):
     if nbad == 0 and not q:
         import os
         os.remove(r.stdout_path)          # several hundred MB
+    # 3a. the same, exhaustively, over newlines and the special code points (U+FEFF, line-break look-alikes, whatever
+    # the source under test mentions): every read boundary next to every one of them
+    r = ctx.tlc("MC_InputStream", mc_cfg(sp_alpha, 2, 3, 3, True, [], listed, ["ThmTotal", "ThmDiscipline", "ThmExport"]),
+                "mc-faithful-special", expect_ok=False, keep_records=False)
+    if r.violated or r.error:
+        ctx.violation("theorem %s fails on the code-faithful specification" % (r.violated or r.error), {"tlc": r.stdout_path})
+        return
+    total, nbad = replay_file(ctx, r.stdout_path, "bounded-exhaustive, special code points")
+    ctx.notes["behaviours_replayed_special"] = total
     # 3b. longer behaviours over the wide alphabet by TLC simulation (deterministic for a seed)
     nsim = 3000 if q else 40000
-    r = ctx.tlc("MC_InputStream", mc_cfg(ALPHA_WIDE, 3, 9, 12, True, [], listed, ["ThmTotal", "ThmDiscipline", "ThmExport"]),
+    sim_alpha = ALPHA_WIDE + [ord(c) for c in specials[:3] + specials[len(LINE_LIKE):][:3]]
+    r = ctx.tlc("MC_InputStream", mc_cfg(sim_alpha, 3, 9, 12, True, [], listed, ["ThmTotal", "ThmDiscipline", "ThmExport"]),
                 "mc-simulate", expect_ok=False, simulate="num=%d" % nsim, depth=60, seed=ctx.seed + 1, workers=1)
     if r.violated or (r.error and "timeout" not in r.error):
         ctx.violation("theorem %s fails in simulation of the code-faithful specification" % (r.violated or r.error),
@@ -567,9 +697,11 @@ def run(ctx):
     del r
     # 4. code -> spec, stream level: scripted random clients over adversarial texts and schedules
     traces = []
+    chars = STREAM_CHARS + specials
     for _ in range(1500 if q else 20000):
-        text = "".join(ctx.rng.choice(STREAM_CHARS) for _ in range(ctx.rng.randint(1, 24)))
-        ev = client_trace(ctx.rng, text, rand_seg(ctx.rng, len(text), ctx.rng.random() < 0.7), ctx.rng.randint(4, 40))
+        text = "".join(ctx.rng.choice(chars) for _ in range(ctx.rng.randint(1, 24)))
+        seg = line_seg(text) if ctx.rng.random() < 0.25 else rand_seg(ctx.rng, len(text), ctx.rng.random() < 0.7)
+        ev = client_trace(ctx.rng, text, seg, ctx.rng.randint(4, 40))
         sets = intern_sets(ev)
         traces.append({"src": cps(text), "sets": sets, "ev": ev})
     recs = ins.validate_all(ctx, "Trace_InputStream", traces, "client", consts=defects_const(listed))
@@ -586,13 +718,15 @@ def run(ctx):
         ctx.nontriv(("client", tuple(sorted(rec["fired"])), rec["eqn"], min(len(tr["ev"]) // 8, 4)))
     ctx.sample({"code_to_spec_client": ucs(traces[-1]["src"]), "events": len(traces[-1]["ev"])})
     # 5. code -> spec, end to end
-    groups = build_groups(ctx, listed)
+    groups = build_groups(ctx, listed, specials)
     stats = end_to_end(ctx, listed, groups, "e2e")
     ctx.notes["end_to_end"] = stats
     ctx.sample({"code_to_spec_e2e": groups[-1][0], "deliveries": groups[-1][1][1:3]})
     # 6. BufferedStream
     from .. import bytebuffer
     bytebuffer.run(ctx, stats.pop("bb_traces"))
+    # 7. the stream factory: every source kind x every way of declaring an encoding (spec/SourceKind.tla)
+    factory_table(ctx)
     ctx.assumptions += [
         "BOM sniffing: a short-read byte source returns the first 4 bytes in one read when a BOM declares the encoding "
         "(detectBOM does one read(4) and does not loop; with reads of 1-2 bytes the BOM is missed or seek() asserts)",
@@ -636,6 +770,8 @@ def replay(case):
         bad = replay_behaviour({"h": c["h"], "raw": c["raw"]})
     elif kind == "bb-behaviour":
         bad = bytebuffer.replay_behaviour({"h": c["h"]})
+    elif kind == "factory":
+        bad = factory_row((c["row"], c.get("fragment", False)))
     elif kind == "delivery":
         text = ucs(c["text"])
         end_to_end(ctx, listed, [(text, [{"kind": "str"}, c["delivery"]])], "replay")
